@@ -813,8 +813,13 @@ def E_catchment_fromdict(rng, tier):
     """from_dict-built catchments of 0 / 1 / 2 cells and inconsistent content"""
     from hydrodiy.gis.grid import Grid, Catchment
     from hydrodiy.gis import grid as g
-    for (nr, nc) in ((1, 1), (2, 2), (4, 5), (3, 0), (0, 3), (0, 0)):
+    for (nr, nc) in ((1, 1), (2, 2), (4, 5), (3, 0), (0, 3), (0, 0), (10, 10), (3, 40)):
         for cells in ([], [0], [0, 1], [nr * nc - 1], list(range(nr * nc)),
+                      # areas in several pieces: a lone lowest cell and cells far from it,
+                      # copies of one cell, two distant cells
+                      [0, nr * nc - 1, nr * nc - 2, max(nr * nc - 1 - nc, 0)],
+                      [nr * nc // 2] * 3, [0, nr * nc // 2 + 1], [1, nr * nc - 1],
+                      [0, 0, nr * nc - 1, nr * nc - 1],
                       [nr * nc], [-1], [2 ** 40],
                       # valid and invalid cell numbers together (a negative number is
                       # a legal *python* index into the mask the wrapper builds)
